@@ -99,7 +99,8 @@ def gen_face_grid(rng, allow_big=False):
 
 def gen_case(rng, family=None):
     family = family or rng.choice(["pad2d", "pad2d", "pad2d", "faceop", "faceop", "sigeq", "sigeq",
-                                   "parse", "parse", "metrics", "metrics", "general", "general"])
+                                   "parse", "parse", "metrics", "metrics", "general", "general", "general",
+                                   "registry"])
     words = ["fill", "extend", "periodic"]
     if family in ("pad2d", "faceop"):
         gs = gen_face_grid(rng)
@@ -158,7 +159,7 @@ def gen_case(rng, family=None):
 
         def render(ins, outs, names):
             f = lambda a: "(" + ",".join(f"{names[i]}:{p}" for i, p in a) + ")"  # noqa
-            return ",".join(f(a) for a in ins) + "->" + ",".join(f(a) for a in outs)
+            return ",".join(f(a) for a in ins) + "->" + (",".join(f(a) for a in outs) if outs else "()")
 
         s1 = render(ins, outs, d1)
         mode = rng.choice(["renamed", "renamed", "renamed", "perm_pos", "swap_names"])
@@ -199,6 +200,11 @@ def gen_case(rng, family=None):
         req = rng.choice([["X", "Y", "Z"], ["Z", "Y", "X"], ["Y", "X", "Z"], ["X", "Y"], ["Y", "Z"]])
         return {"kind": "metrics", "axis_order": axn, "registry": [list(b) for b in reg], "request": req,
                 "op": rng.choice(["get_metric", "integrate", "average"]), "seed": rng.randrange(10**6)}
+    if family == "registry":
+        # a C16-style registration history; outcome = all get_metric reads after the last call
+        from . import eng_c16
+
+        return {"kind": "registry", "history": eng_c16.gen_history(rng, "quick", faulty=rng.random() < 0.3)}
     if family == "general":
         from . import eng_c06
 
@@ -370,6 +376,11 @@ def execute(spec, pi=0):
                 else:
                     res = grid.average(da, spec["request"])
                 return ["ok", _res_digest(res)]
+            if kind == "registry":
+                from . import eng_c16
+
+                v, outcomes, reads = eng_c16.execute(spec["history"], None, None, check_regroup=False)
+                return ["ok", [outcomes, reads, v["fingerprint"] if v else None]]
             if kind == "general":
                 from . import eng_c06
 
@@ -410,6 +421,8 @@ def involved_orders(spec):
         return [list(frozenset(spec["request"]))]
     if kind == "general":
         return [list(set(spec["c06"]["gspec"]["axes"]))]
+    if kind == "registry":
+        return [list(set(["X", "Y"])), list(frozenset(["X", "Y"]))]
     return []
 
 
@@ -455,8 +468,9 @@ RULE = (
     "multi-axis grid-ufunc signatures (consistent renaming, permuted positions, swapped names) judged by "
     "equivalent() in both directions, Grid construction from COMODO (2-4 axes) and SGRID (2-D, 2-D+vertical, 3-D) "
     "metadata followed by order-sensitive two-axis operations, metric registries offering several partitions of "
-    "the requested axes with mutually inconsistent (prime) values queried by get_metric/integrate/average, and a "
-    "slice of the C06 corpus run eagerly. Outcome digest = exception type or values/dtype/dims/coords (Grid: axis "
+    "the requested axes with mutually inconsistent (prime) values queried by get_metric/integrate/average, "
+    "C16-style registration histories read back through get_metric, and a slice of the C06 corpus (all operation "
+    "kinds incl. user grid ufuncs) run eagerly. Outcome digest = exception type or values/dtype/dims/coords (Grid: axis "
     "order and position->dim maps). All K x 3 digests of a case must be equal. Non-trivial = at least two of the "
     "interpreters iterated one of the case's involved name sets in different orders. Distinct = digest of the case "
     "spec."
